@@ -1,4 +1,4 @@
-from vcheck import Check, Failure, ensure_parsec
+from vcheck import Check, Failure, Rng, ensure_parsec
 
 M32 = 1 << 32
 
@@ -24,6 +24,7 @@ class C33(Check):
     harness_src = "harness/h_rwlock.c"
     harness_cflags = ("-DBUILDING_PARSEC",)
     link_parsec = False
+    race = True                 # search only: plain accesses to the lock words become scheduling points
     level_text = ("Theorems over an atomic-step model of the read-write lock this build compiles (parsec_rwlock.c, "
                   "PARSEC_RWLOCK_IMPL_TICKET: phase-fair ticket lock, words rin/rout/win/wout kept mod 2^32), for ANY number of "
                   "threads below 2^24, ANY per-thread list of rdlock..rdunlock / wrlock..wrunlock cycles, ANY schedule and any "
@@ -48,7 +49,9 @@ class C33(Check):
                   "their unsigned residues (only +, &, |, == are applied to them). Hypothesis of the bit layout: fewer than 2^24 "
                   "threads. Threads do not nest lock cycles (a nested rdlock can deadlock by design of a phase-fair lock).")
     technique = ("Coq inductive-invariant proof over all schedules and thread counts + controlled-schedule differential run "
-                 "(ucontext coroutines, macro-interposed atomics and wait loops) of the real parsec_rwlock.c")
+                 "(ucontext coroutines, macro-interposed atomics and wait loops) of the real parsec_rwlock.c; race exploration "
+                 "(clang -fsanitize=thread instrumentation + stand-in runtime: every plain access to the lock words is a "
+                 "scheduling point) judged by the property oracle, as search only")
     rule = ("1..6 threads (up to 32 in the many-readers pattern) with random R/W cycle programs, lock pre-aged to arbitrary counter values (including the 2^24/2^32 "
             "wrap-arounds); schedules: sequential, round-robin, bursts, random, and directed prefixes (writer arriving while "
             "readers are inside, readers arriving while a writer waits, back-to-back writers, reader that misses the zero "
@@ -239,6 +242,31 @@ class C33(Check):
                         out.append(self._fmt(0, 0, [p0, p1, p2], [r.below(3) for _ in range(r.range(4, 30))]))
         for _ in range(2000):
             out.append(self._directed(r, 3))
+        return out
+
+    def race_cases(self, cases):
+        """schedules for the race-exploration build (every access to the lock words yields: a wrlock is
+        ~5 steps, a wrunlock 3-4, a rdlock 1-2): a writer releasing while 1-2 readers arrive at each of
+        its points, with a following writer; plus a sample of the ordinary cases with longer schedules"""
+        r = Rng(self.seed * 7919 + 33)
+        out = []
+        shapes = (["W", "R", "W"], ["W", "R", "R", "W"], ["WW", "R", "R"], ["W", "RR", "W"],
+                  ["RW", "R", "W"], ["W", "R", "WR", "R"])
+        ages = ((0, 0), ((1 << 23) - 1, (1 << 31) - 1), ((1 << 24) - 2, M32 - 1))
+        for progs in shapes:
+            nt = len(progs)
+            for i in range(0, 15):              # how far the first writer is when the readers arrive
+                for j in range(1, 5):           # steps of the first reader
+                    for k in (0, 1, 2, 4):      # writer steps before the next thread moves
+                        a, b = ages[(i + j + k) % 3] if (i + j) % 4 == 0 else (0, 0)
+                        s = [0] * i + [1] * j + [0] * k + [2] * r.range(0, 3) + [1] * r.range(0, 2) + [0] * r.range(0, 4)
+                        s += [r.below(nt) for _ in range(r.range(0, 4 * nt))]
+                        out.append(self._fmt(a, b, progs, s))
+        pool = [c for c in cases if self.nontrivial_key(c) is not None and len(_parse_case(c)[2]) <= 6]
+        for c in r.shuffle(pool)[:1500 if self.tier == "quick" else 20000]:
+            a, b, progs, sched = _parse_case(c)
+            nt = len(progs)
+            out.append(self._fmt(a, b, progs, sched + [r.below(nt) for _ in range(r.range(0, 10 * nt))]))
         return out
 
     def nontrivial_key(self, case):
